@@ -24,7 +24,7 @@ import (
 
 func init() {
 	register("C18", "line level: every peer-behaviour schedule (9 behaviours: grant+ACK, grant+NAK, grant+other char, grant+silence, no grant, "+
-		"noise then grant, contention with intact / corrupted / missing block) exhaustively to length 2 (quick) / 3 (thorough) and randomly to 8, x retry "+
+		"noise then grant, contention with intact / corrupted / missing block) exhaustively to length 2 (quick) / 4 (thorough) and randomly to 8, x retry "+
 		"limits 0..3 x both roles, against the real sendBlock; receiveBlock against intact / every-position corrupted / truncated / silent / bad-length "+
 		"senders; end to end: two real connections through a fault-injecting middlebox over fault schedules x retry limits x 1..3 blocks x contention; "+
 		"distinct = distinct (role, limit, schedule) text; non-trivial = at least one fault or contention in the schedule", runC18)
@@ -400,7 +400,7 @@ func c18SendCases(c *Ctx) []c18SendCase {
 		}
 		return k
 	}
-	maxExh := c.Pick(2, 3)
+	maxExh := c.Pick(2, 4)
 	for _, isEquip := range []bool{false, true} {
 		for limit := 0; limit <= 3; limit++ {
 			var rec func(prefix []string)
